@@ -47,13 +47,6 @@ func schemaPattern(p *core.Program, recv string) (string, token.Pos, bool) {
 
 // C06 — amount and percentage text codec.
 func C06(c *core.Ctx) {
-	if pk := c.P.Pkg("num"); pk != nil {
-		for _, fd := range c.P.RawFuncs(pk) {
-			if fd.Obj.Exported() {
-				c.P.Anchor(fd.Obj)
-			}
-		}
-	}
 	p := c.P
 	c.Explain("Decided: (R1) the amount reader enforces the published pattern — every success return of AmountFromString lies where the input was matched by a regular expression compiled from the very constant that Amount.JSONSchema publishes (strconv alone accepts signs in both parts), and the combination of the two parts is range-checked before it is computed; (R2) PercentageFromString hands everything but one optional trailing % to AmountFromString and the percentage pattern is the amount pattern plus %; (R3) both UnmarshalJSON methods go through unquote and UnmarshalText, unquote strips only a complete pair of quotes around a non-empty body, and MarshalText is String(); (R4) the printer returns no constant text outside the pattern except beyond the 18-decimal domain, and its sign prefix is only \"\" or \"-\". Recorded, not decided: PercentageFromString accepts the empty string and a number without % (documented in code). Not decided: round-trip equality for all values (value-level), the minimum int64 value.")
 	c.Rule("C06-R1", "reader enforces the published amount pattern and range", 2)
